@@ -83,6 +83,10 @@ def perf_model(spec: dict):
 
     d = dict(_sample_dict())
     d.pop('APU_name', None)
+    if spec['kind'] == 'sample_low':
+        # the sample table under a low ceiling: the planned cruise level (ceiling - 7000 ft) lies below the first cruise row,
+        # so the mission is rejected while the starting mass is still being estimated (seed C17_4)
+        d['maximum_altitude_ft'] = int(spec['max_alt_ft'])
     if spec['kind'] == 'gen':
         d['flight_performance'] = gen_table(spec)
         d['maximum_altitude_ft'] = int(spec['max_alt_ft'])
